@@ -1354,10 +1354,14 @@ class X:
         raise Unsupported('dict comprehension')
 
     def ex_Dict(self, e):
-        r = self.contract.construct_hook(self, dict, [], {})
-        if r is not None and not e.keys:
-            return r
-        raise Unsupported('dict display')
+        if not e.keys:
+            r = self.contract.construct_hook(self, dict, [], {})
+            if r is not None:
+                return r
+            raise Unsupported('dict display')
+        if any(k is None for k in e.keys):
+            raise Unsupported('dict display with ** unpacking')
+        return VDictLit([(self.eval(k), self.eval(v)) for k, v in zip(e.keys, e.values)])
 
     def ex_Set(self, e):
         return VTuple([self.eval(i) for i in e.elts])  # only used for membership tests
@@ -1366,6 +1370,21 @@ class X:
         v = self.eval(e.value)
         self.assign(e.target, v)
         return v
+
+
+class VDictLit(Val):
+    """a dict display with statically distinguishable keys; read-only (lookups must be decidable by simplification)"""
+    def __init__(self, pairs):
+        self.pairs = pairs
+
+    def getitem(self, X, key):
+        for k, v in reversed(self.pairs):
+            eq = simp(X.equal(k, key))
+            if z3.is_true(eq):
+                return v
+            if not z3.is_false(eq):
+                raise Unsupported('dict display lookup with a key that is not statically decidable')
+        X.raise_(KeyError, 'key')
 
 
 class _GenExhausted(Exception):
